@@ -283,10 +283,52 @@ class StmtMixin:
                     continue
                 t, f = self.fork(s2, truth)
                 if t is not None:
-                    ts.append(t)
+                    ts.append(self.narrow(t, test, True))
                 if f is not None:
-                    fs.append(f)
+                    fs.append(self.narrow(f, test, False))
         return ts, fs, other
+
+    def narrow(self, st: St, test, positive: bool):
+        """Refine Python-side hints of local names from the branch condition just assumed (pc already has the fact)"""
+        if isinstance(test, ast.UnaryOp) and isinstance(test.op, ast.Not):
+            return self.narrow(st, test.operand, not positive)
+        if isinstance(test, ast.BoolOp):
+            if isinstance(test.op, ast.And) and positive or isinstance(test.op, ast.Or) and not positive:
+                for v in test.values:
+                    st = self.narrow(st, v, positive)
+            return st
+        if isinstance(test, ast.Call) and isinstance(test.func, ast.Name) and test.func.id == 'isinstance' and positive \
+                and len(test.args) == 2 and isinstance(test.args[0], ast.Name) and test.args[0].id in st.loc:
+            v = st.loc[test.args[0].id]
+            if isinstance(v, SV):
+                try:
+                    outs = self.ev(st, test.args[1])
+                except Unsupported:
+                    return st
+                if len(outs) == 1 and isinstance(outs[0].val, ClassV):
+                    ci = outs[0].val.ci
+                    if ci.qualname in ('str', 'int', 'bool'):
+                        nv = SV(v.term, ci.qualname)
+                    elif v.cls is None or (ci in self.index.subclasses(v.cls)):
+                        nv = SV(v.term, 'ref', ci)
+                    else:
+                        nv = v
+                    st = st.copy()
+                    st.loc[test.args[0].id] = nv
+            return st
+        if isinstance(test, ast.Compare) and len(test.ops) == 1 and isinstance(test.left, ast.Name) and test.left.id in st.loc \
+                and isinstance(test.comparators[0], ast.Constant) and test.comparators[0].value is None:
+            v = st.loc[test.left.id]
+            if isinstance(v, SV) and v.kind is None:
+                isnone = isinstance(test.ops[0], ast.Is) == positive
+                if isinstance(test.ops[0], (ast.Is, ast.IsNot)):
+                    st = st.copy()
+                    if isnone:
+                        st.loc[test.left.id] = SV(v.term, 'none')
+                    elif v.cls is not None:
+                        st.loc[test.left.id] = SV(v.term, 'ref', v.cls, v.exact)
+            return st
+        return st
 
     def ex_If(self, st, s):
         ts, fs, outs = self.branch(st, s.test)
